@@ -960,6 +960,8 @@ theorem onRecv_err {cfg : Cfg} {me : ChainId} {c c2 : Chain} {p : Packet} {code 
   · simp only at h
     split at h
     · cases h
+    split at h
+    · cases h
     · cases h
     · injection h with h1 _; omega
     · cases h
@@ -984,6 +986,8 @@ theorem onRecv_ok {cfg : Cfg} {me : ChainId} {c c2 : Chain} {p : Packet}
   · rename_i e tok k hrt
     refine ⟨e, tok, k, hrt, ?_⟩
     simp only at h
+    split at h
+    · cases h
     split at h
     · injection h with h1; exact Or.inl h1.symm
     · injection h with h1; exact Or.inl h1.symm
@@ -1221,11 +1225,18 @@ theorem ackMsg_some {cfg : Cfg} {me : ChainId} {c c' : Chain} {p : Packet} {code
   unfold ackMsg at h
   split at h
   · cases h
-  · rename_i hn; exact ⟨h, hn⟩
+  · rename_i hn
+    split at h
+    · cases h
+    · exact ⟨h, hn⟩
 
 theorem ackMsg_of_handler_none {cfg : Cfg} {me : ChainId} {c : Chain} {p : Packet} {code : Nat} {rel : Option Acct} {cb : Bool}
     (h : ackHandler cfg me c p code rel = none) : ackMsg cfg me c p code rel cb = none := by
-  unfold ackMsg; split <;> simp [h]
+  unfold ackMsg; split
+  · rfl
+  · split
+    · rfl
+    · exact h
 
 theorem recv_eff {cfg : Cfg} {me : ChainId} {c c' : Chain} {p : Packet}
     (h : recvHandler true cfg me c p = some c') :
@@ -1282,6 +1293,8 @@ theorem recv_eff {cfg : Cfg} {me : ChainId} {c c' : Chain} {p : Packet}
   · rename_i code c1 hcb
     have hc' := (Option.some.inj h).symm
     exact ⟨code, _, nonzeroEff code (onRecv_err hcb), Or.inl hc'⟩
+  · have hc' := (Option.some.inj h).symm
+    exact ⟨1, _, nonzeroEff 1 (by omega), Or.inl hc'⟩
   · have hc' := (Option.some.inj h).symm
     exact ⟨1, _, nonzeroEff 1 (by omega), Or.inl hc'⟩
 
@@ -1578,6 +1591,8 @@ theorem inv_step (w : World) (s : Step) (h : Inv w) : Inv (step true w s) := by
     split
     · exact h
     · split
+      · exact h
+      split
       · exact h
       · rename_i e hd
         have := debit_some hd
@@ -2151,6 +2166,8 @@ theorem full_step (w : World) (s : Step) (h : FullInv w) : FullInv (step true w 
     · exact g
     · split
       · exact g
+      split
+      · exact g
       · rename_i e hd
         have := debit_some hd
         subst this
@@ -2435,6 +2452,8 @@ theorem fs_step (w : World) (s : Step) (h : Inv w) (fs : FeeSolvent w) : FeeSolv
     split
     · exact fs
     · rename_i hsys
+      split
+      · exact fs
       split
       · exact fs
       · rename_i e hd
@@ -2734,6 +2753,8 @@ theorem finv_step (w : World) (s : Step) (h : Inv w) (g : FInv w) : FInv (step t
     · exact g
     · split
       · exact g
+      split
+      · exact g
       · rename_i e hd
         have := debit_some hd
         subst this
@@ -2801,7 +2822,8 @@ theorem recvHandler_eq (cfg : Cfg) (me : ChainId) (c : Chain) (p : Packet) (ha :
       | .ok cctx' => some (withAck cctx' p 0)
       | .evmRevert => some (withAck (ctxOf c p) p 1)
       | .errorResult code _ => some (withAck (ctxOf c p) p code)
-      | .hookFail _ => some (withAck (ctxOf c p) p 1) := by
+      | .hookFail _ => some (withAck (ctxOf c p) p 1)
+      | .commitFail _ => some (withAck (ctxOf c p) p 1) := by
   obtain ⟨h1, h2, h3⟩ := ha
   unfold recvHandler ctxOf withAck
   simp [h1, h2, h3]
@@ -2889,6 +2911,9 @@ theorem recv_code_decides (cfg : Cfg) (me : ChainId) (c c' : Chain) (p : Packet)
     have := (Option.some.inj h).symm; subst this
     have hne := onRecv_err hcb
     refine ⟨code, by simp [withAck, upd2], by simp [withAck, ctxOf, upd2], fun h => absurd h hne, fun _ => ⟨rfl, rfl, rfl⟩, ?_⟩
+    intro h; simp [withAck, ctxOf] at h
+  · have := (Option.some.inj h).symm; subst this
+    refine ⟨1, by simp [withAck, upd2], by simp [withAck, ctxOf, upd2], fun h => by omega, fun _ => ⟨rfl, rfl, rfl⟩, ?_⟩
     intro h; simp [withAck, ctxOf] at h
   · have := (Option.some.inj h).symm; subst this
     refine ⟨1, by simp [withAck, upd2], by simp [withAck, ctxOf, upd2], fun h => by omega, fun _ => ⟨rfl, rfl, rfl⟩, ?_⟩
@@ -3400,7 +3425,7 @@ theorem ack_retry_after_callback_failure (w : World) (s d : ChainId) (q : Nat) (
     let w2 := step true w1 (.cbset s false)          -- the callback contract is repaired
     w1 = w ∧
     step true w2 (.ack s d q) =
-      (match ackHandler (w.cfg s) s (w.chains s) p code ((w.reg s).onTeleport d (w.ackTag d s q)) with
+      (match ackMsg (w.cfg s) s (w.chains s) p code ((w.reg s).onTeleport d (w.ackTag d s q)) false with
        | none => w2
        | some c => w2.set s c) := by
   intro w1 w2
@@ -3410,9 +3435,8 @@ theorem ack_retry_after_callback_failure (w : World) (s d : ChainId) (q : Nat) (
     show step true w1 (.cbset s false) = _
     rw [h1]; rfl
   rw [hw2]
-  simp only [step, hf, hack, ackMsg, upd1]
-  simp only [↓reduceIte, Bool.false_eq_true, and_false]
-  generalize ackHandler (w.cfg s) s (w.chains s) p code ((w.reg s).onTeleport d (w.ackTag d s q)) = r
+  simp only [step, hf, hack, upd1, ↓reduceIte]
+  generalize ackMsg (w.cfg s) s (w.chains s) p code ((w.reg s).onTeleport d (w.ackTag d s q)) false = r
   cases r <;> rfl
 
 /-- `type(uint256).max` is an unlimited allowance: `transferFrom` / `burnFrom` do not consume it -/
@@ -3517,5 +3541,121 @@ example :
     ((run true w0 cbSteps2).chains 0).commits.length = 0 ∧ ((run true w0 cbSteps2).chains 0).evm.out 1 1 = 0 ∧
     ((run true w0 cbSteps2).chains 0).evm.ackStatus 1 1 = 2 ∧ ((run true w0 cbSteps2).chains 0).evm.refunded 1 1 = 1 ∧
     ((run true w0 cbSteps2).chains 0).evm.feePaid 1 1 = 1 ∧ ((run true w0 cbSteps2).chains 0).evm.bal 1 0 = 10000 := by decide
+
+/-! ### the receive callback runs on a discardable context for EVERY packet, whatever the class of failure -/
+
+/-- outcome 5 — the EVM run succeeded but writing its state back failed half-way (e.g. the native coin released to a
+module account the bank blocks): error acknowledgement code 1; the half-written state is discarded with the cache context. -/
+theorem recv_outcome_commitFail (cfg : Cfg) (me : ChainId) (c c2 : Chain) (p : Packet) (ha : RecvAccepts cfg me c p)
+    (hcb : onRecv cfg me (ctxOf c p) p = .commitFail c2) : recvHandler true cfg me c p = some (withAck (ctxOf c p) p 1) := by
+  rw [recvHandler_eq cfg me c p ha, hcb]
+
+/-- a packet that releases the native coin to a blocked account makes the commit fail — with or without call data (unless
+the call data reverts the whole EVM call first) — and the state the callback leaves behind on ITS context is half-written:
+`outTokens` already decremented (as in the complete state `e`), the receiver not credited -/
+theorem onRecv_blocked_release (cfg : Cfg) (me : ChainId) (c : Chain) (p : Packet) (e : Evm) (tok : Token) (k : Nat)
+    (hrt : recvTransfer cfg c.evm p = some (e, tok, k)) (hb : blockedRelease p = true) (hcall : p.call ≠ .plain .revert) :
+    ∃ c2, onRecv cfg me c p = .commitFail c2 ∧ c2.evm.out = e.out ∧
+      c2.evm.bal 0 (releaseTo p) = c.evm.bal 0 (releaseTo p) ∧ c2.evm.credited = e.credited := by
+  refine ⟨{ c with evm := { e with bal := upd2 e.bal 0 (releaseTo p) (c.evm.bal 0 (releaseTo p)) } }, ?_, rfl, ?_, rfl⟩
+  · unfold onRecv
+    simp only [hrt, hb, hcall, ne_eq, not_false_eq_true, and_self, ↓reduceIte]
+  · simp [upd2]
+
+/-- **An error acknowledgement leaves the destination unchanged** — for every packet (with or without call data, with or
+without transfer data) and every class of failure (the contract returned a non-zero result code; the EVM call reverted;
+a post-transaction hook failed after the EVM state had been written; the write-back of the EVM state itself failed
+half-way): after an accepted receive whose acknowledgement is not a success, the WHOLE chain state — EVM state (balances,
+escrow, `outTokens`, supplies, bindings, every contract field), commitments, sequences — is the state before the receive;
+exactly the receipt and the acknowledgement have been added. -/
+theorem recv_error_ack_leaves_destination_unchanged (cfg : Cfg) (me : ChainId) (c c' : Chain) (p : Packet)
+    (h : recvHandler true cfg me c p = some c') (herr : c'.acks p.src p.seq ≠ some 0) :
+    ∃ code, code ≠ 0 ∧ c' = withAck (ctxOf c p) p code := by
+  have ha : RecvAccepts cfg me c p := by
+    unfold recvHandler at h
+    split at h
+    · cases h
+    rename_i h1
+    split at h
+    · cases h
+    rename_i h2
+    split at h
+    · cases h
+    rename_i h3
+    refine ⟨Decidable.of_not_not h1, ?_, ?_⟩
+    · cases hb : c.receipts p.src p.seq
+      · rfl
+      · exact absurd hb h2
+    · cases hb : cfg.clients p.src
+      · simp [hb] at h3
+      · rfl
+  rw [recvHandler_eq cfg me c p ha] at h
+  split at h
+  · have := (Option.some.inj h).symm; subst this
+    exfalso; apply herr; simp [withAck, upd2]
+  · exact ⟨1, by omega, (Option.some.inj h).symm⟩
+  · rename_i code c2 hcb
+    exact ⟨code, onRecv_err hcb, (Option.some.inj h).symm⟩
+  · exact ⟨1, by omega, (Option.some.inj h).symm⟩
+  · exact ⟨1, by omega, (Option.some.inj h).symm⟩
+
+/-- the relayer step: a receive that ends in an error acknowledgement changes nothing on any chain but the receipt and
+the acknowledgement on the destination -/
+theorem recv_step_error_ack_unchanged (w : World) (hw : WF w) (s d : ChainId) (q : Nat) (signer : Acct)
+    (herr : ((step true w (.recv s d q signer)).chains d).acks s q ≠ some 0) :
+    ∀ i, ((step true w (.recv s d q signer)).chains i).evm = (w.chains i).evm ∧
+         ((step true w (.recv s d q signer)).chains i).commits = (w.chains i).commits ∧
+         ((step true w (.recv s d q signer)).chains i).nextSeq = (w.chains i).nextSeq := by
+  intro i
+  simp only [step] at herr ⊢
+  split
+  · exact ⟨rfl, rfl, rfl⟩
+  rename_i p hf
+  obtain ⟨hmem, hpd, hps⟩ := findPacket_some hf
+  have hsrc : p.src = s := (hw.pkt s p hmem).1
+  split
+  · exact ⟨rfl, rfl, rfl⟩
+  rename_i tag htag
+  split
+  · exact ⟨rfl, rfl, rfl⟩
+  rename_i c' hr
+  simp only [hf, htag, hr] at herr
+  by_cases hi : i = d
+  · subst hi
+    have herr' : c'.acks p.src p.seq ≠ some 0 := by
+      rw [hsrc, hps]
+      intro h0; apply herr
+      show ((w.set i c').chains i).acks s q = some 0
+      rw [set_chains_eq]; exact h0
+    obtain ⟨code, _, hc⟩ := recv_error_ack_leaves_destination_unchanged _ _ _ _ p hr herr'
+    show (((w.set i c').chains i).evm = _) ∧ _
+    rw [set_chains_eq, hc]
+    exact ⟨rfl, rfl, rfl⟩
+  · show (((w.set d c').chains i).evm = _) ∧ _
+    rw [set_chains_ne _ _ hi]
+    exact ⟨rfl, rfl, rfl⟩
+
+/-! the change of `seeded/C03-8` in the model: plain transfers (no call data) run on `ctx` itself, everything else on the
+cache context — and a concrete packet on which that loses value: 400 of the native coin released to a blocked account -/
+
+def recvHandlerPlainOnCtx (cfg : Cfg) (self : ChainId) (c : Chain) (p : Packet) : Option Chain :=
+  if p.call = .none then recvHandler false cfg self c p else recvHandler true cfg self c p
+
+/-- chain 0 holds 1000 of its native coin in escrow for chain 1 -/
+def cHome : Chain :=
+  { Chain.empty with evm := { Evm.empty with bal := fun t a => if t = 0 ∧ a = acEndpoint then 1000 else 0,
+                                             out := fun t d => if t = 0 ∧ d = 1 then 1000 else 0 } }
+/-- 400 of the voucher come home from chain 1, to be released to the gov module account (13) -/
+def pHome : Packet :=
+  { src := 1, dst := 0, seq := 1, sender := 0, transfer := some { token := 2, ori := some 0, amount := 400, receiver := 13 },
+    call := .none, callback := false }
+
+example :
+    -- repaired handler: error acknowledgement 1, escrow and outTokens untouched
+    ((recvHandler true cfgA 0 cHome pHome).map fun c => (c.acks 1 1, c.evm.out 0 1, c.evm.bal 0 acEndpoint, c.evm.bal 0 13))
+      = some (some 1, 1000, 1000, 0) ∧
+    -- plain transfers on ctx: the same error acknowledgement (the source will refund the 400) — but 400 have left the escrow
+    ((recvHandlerPlainOnCtx cfgA 0 cHome pHome).map fun c => (c.acks 1 1, c.evm.out 0 1, c.evm.bal 0 acEndpoint, c.evm.bal 0 13))
+      = some (some 1, 600, 600, 0) := by decide
 
 end TM.World
